@@ -340,7 +340,7 @@ def split_config(rng, cfg, nfiles):
     for k, v in cfg.get("parameters", {}).items():
         put(rng.randrange(nfiles), ["parameters", k], v)
     for n, s in cfg.get("services", {}).items():
-        if rng.random() < 0.5 or s.get("todo"):
+        if rng.random() < 0.5:
             put(rng.randrange(nfiles), ["services", n], copy.deepcopy(s))
             continue
         for a, v in s.items():
